@@ -24,7 +24,7 @@ ASSUMPTIONS = [
     "secrecy is decided functionally (stored bytes equal the reference ciphertext; no secret needle occurs); cryptographic strength of zero-IV CBC is out of scope",
     "encrypted components are compared on the declared length only (stored/returned blob may be zero-padded)",
 ]
-REQUIRED_CLASSES = ["len%16!=0", "trailing00>=1", "all-zero", "framing=bec2", "framing=bf3", "via=set_config", "cipher=unregistered", "cipher=raising", "trailing00>=16", "has-needles"]
+REQUIRED_CLASSES = ["len%16!=0", "trailing00>=1", "all-zero", "framing=bec2", "framing=bf3", "via=set_config", "cipher=unregistered", "cipher=raising", "trailing00>=16", "has-needles", "retry-after-failure"]
 
 ENC_DESC = [(0xC3, b"\x03"), (0xC2, b"\x02"), (0xC1, b"\x03"), (0xC5, b"\x01")]
 
@@ -191,6 +191,33 @@ def check_cipher_failure(case, rec):
             raised = e
     finally:
         sut.registry_restore()
+    # RETRY: the same objects written again with the working cipher must come out as ciphertext (no state poisoned by the failed attempt)
+    if raised is not None:
+        rec.cls("retry-after-failure")
+        s2 = io.StringIO()
+        try:
+            if case["framing"] == "bec2":
+                sut.Bec2File(f, [sut.mk_authblock(b) for b in case["blocks"]], key).write_file(s2, sut.writers_for(case))
+            else:
+                f.write_file(s2, key)
+        except Exception as e:
+            raise Violation("retry with the working cipher after a failed write raised %s: %s" % (type(e).__name__, e))
+        try:
+            _, b2, _ = M.parse_text_strict(s2.getvalue())
+            if case["framing"] == "bec2":
+                _, pos = M.parse_bec2_header(b2)
+                parsed = M.parse_body_strict(b2, pos, key)
+            else:
+                parsed = M.parse_bf3_strict(b2, key)
+        except M.Reject as e:
+            raise Violation("file written on retry after a cipher failure is malformed: %s" % e)
+        idx = next(i for i, c in enumerate(f.components) if c is comp)
+        if parsed[idx]["stored"] != ossl.cbc_encrypt(key, ossl.zeropad(content)):
+            raise Violation("after a failed write attempt (cipher %s), writing the SAME component again with a working cipher stores %s.. instead of the ciphertext (plaintext starts %s)" % (
+                mode, parsed[idx]["stored"][:24].hex(), content[:24].hex()))
+        for w in needles_of(content, public_bytes(case)):
+            if w in b2:
+                raise Violation("retry after cipher failure: plaintext window %s written in clear" % w.hex())
     out = s.getvalue()
     try:
         binary = bytes.fromhex("".join(out.split("\n\n", 1)[-1].split())) if out else b""
